@@ -193,17 +193,11 @@ def decodeResponse (cd : Codec) (code down : Nat) (data : List Nat) : Res (Optio
         else some "c:OK:0:none"
   else pure none
 
-def findResp : List (Nat × Bool × Bool × Bool) → List Nat → Res (Option (Nat × Bool × Bool × Bool))
-  | [], _ => pure none
-  | c :: cs, d => do
-    let t ← isOfType c.1 d
-    if t then pure (some c) else findResp cs d
-
 /-- Serializer.DecodeDnsResponseWithParams -/
 def decodeAnswer (cd : Codec) (domLen down : Nat) (rrs : List RR) : Res (Option String) := do
   let data ← unwrap domLen rrs
   if data.length = 0 then pure none else do
-  let c ← findResp SA.Gen.commandTable data
+  let c ← findCmd SA.Gen.commandTable data
   match c with
   | none => pure none
   | some (code, _, _, hasResp) =>
